@@ -497,7 +497,7 @@ pub fn get_best_move_until_stop(
         println!();
 
         // If mate can be forced, or there is only a single move available, stop searching
-        if max_depth.is_some_and(|d| d == depth)
+        if max_depth.is_some_and(|d| d <= depth)
             || is_only_move
             || best_score > Score::MAX - 1000
             || best_score < Score::MIN + 1000
